@@ -236,6 +236,18 @@ func addStubIntrinsics(t map[string]Intrinsic) {
 		}
 		return "json: cannot unmarshal value"
 	}
+	t["encoding/json.Valid"] = func(m *Machine, fr *Frame, fn *ssa.Function, a []Value) Value {
+		m.noteStub("encoding/json.Valid (native on concrete bytes)")
+		m.checkPooledBytes(fr, "json.Valid", a[0])
+		data, ok := m.concreteBytes(a[0])
+		if !ok {
+			m.unsupported("json.Valid of symbolic bytes")
+		}
+		if json.Valid(data) {
+			return m.tf.True
+		}
+		return m.tf.False
+	}
 	t["encoding/json.Unmarshal"] = func(m *Machine, fr *Frame, fn *ssa.Function, a []Value) Value {
 		m.noteStub("encoding/json.Unmarshal (native on concrete bytes)")
 		m.checkPooledBytes(fr, "json.Unmarshal", a[0])
